@@ -2,7 +2,7 @@
 import re
 import core, lib
 from core import call_matches, call_names, op_place, op_local, backward_slice
-from props import C02
+from props import C02, shared
 
 LEVEL = 'proof'
 FLOOR = 16
@@ -98,6 +98,39 @@ def run(ctx):
         for s in ins:
             fl = lib.receiver_fields(we, we.term(s), 0)
             ctx.ob('3c moved-value-indexed-in-current-index', 'K4-provenance', we.path, 'a moved value is (re)inserted into the CURRENT index (tables.index), also when it was found through an old one', '.Tables.index' in fl, str(sorted(fl)))
+    # the index slot that is cleared is the one whose value was verified against the key (several keys can share the 54 bits
+    # the index stores): the position flows search_all_indexes -> write_plan_existing -> write_remove_plan -> plan_remove_chunk
+    # -> write_entry(empty, i) and is never re-derived from the partial key alone
+    prc = ctx.body('index::IndexTable::plan_remove_chunk')
+    if prc:
+        we2 = [bi for bi, t in prc.calls() if bi in prc.normal_blocks() and call_matches(t, ['index::IndexTable::write_entry'])]
+        ctx.ob('3d0 clear-site', 'anchor', prc.path, 'plan_remove_chunk writes the (empty) entry at one position', len(we2) >= 1, str(we2))
+        for s2 in we2:
+            a = prc.term(s2)['a']
+            sl = backward_slice(prc, [op_place(a[1])]) if len(a) > 1 and op_place(a[1]) else None
+            research = sorted(c for c in (sl.calls if sl else []) if re.search(r'find_entry', c))
+            ctx.ob('3d cleared-slot-is-the-verified-position', 'K4-provenance', prc.path,
+                   'the slot cleared by an index removal is the position handed in by the caller (found by a search that compared the stored key tail), not the first partial-key match of a fresh scan',
+                   sl is not None and not research and bool(sl.params - {1, 2}), 'position derives from %s' % (research or 'no parameter'), prc.loc(s2))
+    wrp = ctx.body('index::IndexTable::write_remove_plan')
+    if wrp and prc:
+        for s2 in wrp.call_sites('index::IndexTable::plan_remove_chunk'):
+            a = wrp.term(s2)['a']
+            # which argument carries the position: the usize one
+            ok = any(op_place(x) is not None and str(wrp.locals[op_place(x)[0]]) == 'usize' and (backward_slice(wrp, [op_place(x)], through_calls=False).params) for x in a[1:])
+            ctx.ob('3e position-forwarded write_remove_plan', 'K4-provenance', wrp.path, 'write_remove_plan forwards the position it was given', ok, '', wrp.loc(s2))
+    if we:
+        for s2 in we.call_sites('index::IndexTable::write_remove_plan'):
+            a = we.term(s2)['a']
+            ok = any(op_place(x) is not None and str(we.locals[op_place(x)[0]]) == 'usize' and (backward_slice(we, [op_place(x)], through_calls=False).params) for x in a[1:])
+            ctx.ob('3e position-forwarded write_plan_existing', 'K4-provenance', we.path, 'write_plan_existing forwards the position found by the search', ok, '', we.loc(s2))
+    hwp = ctx.body('column::HashColumn::write_plan')
+    if hwp:
+        for s2 in hwp.call_sites('column::HashColumn::write_plan_existing'):
+            a = hwp.term(s2)['a']
+            ok = any(op_place(x) is not None and str(hwp.locals[op_place(x)[0]]) == 'usize' and any(re.search(r'search_all_indexes$', c) for c in backward_slice(hwp, [op_place(x)]).calls) for x in a[1:])
+            ctx.ob('3f position-comes-from-verified-search', 'K4-provenance', hwp.path, 'the position given to write_plan_existing is the one search_all_indexes returned (search_index compares the key tail stored with the value)', ok, '', hwp.loc(s2))
+    shared.index_insert_retried(ctx, '3r')      # a moved or new value always gets its index entry
     # 4. free-list links are bounded when followed
     for fn, cmpf in (('table::ValueTable::read_next_free', '.ValueTable.filled'), ('table::ValueTable::init_table_data', '.ValueTable.filled'),
                      ('table::ValueTable::check_free_refs', '.ValueTable.written'), ('table::ValueTable::open', None)):
